@@ -115,10 +115,15 @@ def render(stmts, ind, out, uses):
                 out.append(f"{pad}finally:")
                 render(s[4], ind + 1, out, uses)
         elif k == "with":
-            out.append(f"{pad}with cm():")
+            out.append(f"{pad}with {st_items(s)}:")
             render(s[1], ind + 1, out, uses)
         else:
             raise ValueError(k)
+
+
+def st_items(st):
+    """the context managers of a with skeleton: cm() suppresses exceptions (its __exit__ returns True), plain() does not"""
+    return st[2] if len(st) > 2 else "cm()"
 
 
 def j(a, b):
@@ -256,6 +261,10 @@ def stmt(st, s, lib, res):
     if k == "with":
         a = block(st[1], s, lib, res)
         n = a.n
+        if "cm()" not in st_items(st):
+            return Out(n, a.b, a.c, a.r, a.e)   # no item suppresses: the body is a plain block
+        if not _L(lib):
+            n = j(n, a.e)    # CM.__exit__ returns True unconditionally: an explicit raise in the body certainly continues after the statement
         if _L(lib):
             n = j(n, j(a.e, s))    # the context manager may suppress an exception raised anywhere in the body
         if lib == "kf":
@@ -375,7 +384,7 @@ class Gen:
         if k == "whiletrue":
             return ("whiletrue", self.stmts(depth - 1, True, jumps=jumps), None)
         if k == "with":
-            return ("with", self.stmts(depth - 1, in_loop, jumps=jumps))
+            return ("with", self.stmts(depth - 1, in_loop, jumps=jumps), self.rnd.choice(["cm()", "cm()", "plain(), cm()", "cm(), plain()", "plain()"]))
         handlers = []
         fin = None
         r = self.rnd.random()
@@ -389,7 +398,9 @@ class Gen:
 
 PRELUDE = ["def cond() -> bool:", "    return True", "def it() -> list[int]:", "    return []",
            "class CM:", "    def __enter__(self) -> None: pass", "    def __exit__(self, *a: object) -> bool: return True",
-           "def cm() -> CM:", "    return CM()"]
+           "def cm() -> CM:", "    return CM()",
+           "class PL:", "    def __enter__(self) -> None: pass", "    def __exit__(self, *a: object) -> None: pass",
+           "def plain() -> PL:", "    return PL()"]
 
 
 def has_asg(body):
@@ -419,7 +430,7 @@ def structured():
         return ("use", uid[0])
     for pre in (False, True):
         for jump in ("return", "raise", "break", "continue", None):
-            for ctx in ("try_finally", "try_except", "try_except_finally", "try_bare", "with", "if_else", "while", "for_else", "while_true"):
+            for ctx in ("try_finally", "try_except", "try_except_finally", "try_bare", "with", "with_plain_first", "with_plain_last", "with_plain_only", "if_else", "while", "for_else", "while_true"):
                 uid[0] = 0
                 inner = [("if", [("asg", 1)] + ([(jump,)] if jump else []), None), use()]
                 in_loop = ctx in ("while", "for_else", "while_true")
@@ -438,6 +449,8 @@ def structured():
                     st = ("try", inner, [("bare", [use()])], None, None)
                 elif ctx == "with":
                     st = ("with", inner)
+                elif ctx.startswith("with_"):
+                    st = ("with", inner, {"with_plain_first": "plain(), cm()", "with_plain_last": "cm(), plain()", "with_plain_only": "plain()"}[ctx])
                 elif ctx == "if_else":
                     st = ("if", inner, [("asg", 4)])
                 elif ctx == "while":
